@@ -25,9 +25,10 @@ class EncodeFault(Exception):
     invalid-value (value not constructible for the generated type: bad enum integer,
     wrong static array length, wrong JSON shape)."""
 
-    def __init__(self, kind, where=""):
+    def __init__(self, kind, where="", kinds=None):
         super().__init__("%s at %s" % (kind, where))
         self.kind = kind
+        self.kinds = list(kinds) if kinds else [kind]
         self.where = where
 
 
@@ -163,6 +164,7 @@ class Model:
         self._enums = {}
         self._greedy = {}
         self._static = {}
+        self._soft = None
 
     # ------------------------------------------------------------ helpers
     def enum(self, id):
@@ -327,7 +329,25 @@ class Model:
 
     # ------------------------------------------------------------ encode
     def encode(self, tid, v):
-        """-> Enc; raises EncodeFault / Abstain."""
+        """-> Enc; raises EncodeFault / Abstain. Range / overflow / consistency faults are
+        collected over the whole value (EncodeFault.kinds lists them all, in model order);
+        a value that cannot exist as the generated type (invalid-value) ends at once."""
+        if self._soft is not None:
+            return self._encode_inner(tid, v)
+        self._soft = []
+        try:
+            e = self._encode_inner(tid, v)
+            soft = self._soft
+        finally:
+            self._soft = None
+        if soft:
+            raise EncodeFault(soft[0][0], soft[0][1], kinds=[k for k, _ in soft])
+        return e
+
+    def _fault(self, kind, where):
+        self._soft.append((kind, where))
+
+    def _encode_inner(self, tid, v):
         d = self.dm[tid]
         k = d["kind"]
         if k == "custom_field_declaration":
@@ -377,7 +397,8 @@ class Model:
         if not isinstance(x, int) or isinstance(x, bool) or x < 0:
             raise EncodeFault("invalid-value", where)
         if x > umax(width):
-            raise EncodeFault("scalar-range", where)
+            self._fault("scalar-range", where)
+            x &= umax(width)
         enc.put_int(x, width // 8, self.big, what)
 
     def _enum_value(self, type_id, x, where):
@@ -466,7 +487,7 @@ class Model:
                         present = self._get(v, oid, where) is not None
                         vals.add(cv if present else 1 - cv)
                     if len(vals) != 1:
-                        raise EncodeFault("condition", w_here)
+                        self._fault("condition", w_here)
                     if w != 1:
                         raise Abstain("flag wider than one bit")
                     bits.append((vals.pop(), 1, "flag", i))
@@ -478,7 +499,7 @@ class Model:
                         if not isinstance(x, int) or isinstance(x, bool) or x < 0:
                             raise EncodeFault("invalid-value", w_here)
                         if x > umax(w):
-                            raise EncodeFault("scalar-range", w_here)
+                            self._fault("scalar-range", w_here)
                     bits.append((x, w, "scalar", i))
                 elif k == "typedef_field":
                     if i in consts:
@@ -510,21 +531,20 @@ class Model:
                         if tf.get("size_modifier"):
                             n += int(tf["size_modifier"])
                     if n > umax(w):
-                        raise EncodeFault("size-overflow", w_here)
+                        self._fault("size-overflow", w_here)
                     bits.append((n, w, "size", t))
                 elif k == "count_field":
                     n = len(elems[fl["field_id"]])
                     if n > umax(w):
-                        raise EncodeFault("count-overflow", w_here)
+                        self._fault("count-overflow", w_here)
                     bits.append((n, w, "count", fl["field_id"]))
                 elif k == "elementsize_field":
                     es = elems[fl["field_id"]]
                     n = len(es[0].data) if es else 0
-                    for e in es:
-                        if len(e.data) != n:
-                            raise EncodeFault("element-size", w_here)
+                    if any(len(e.data) != n for e in es):
+                        self._fault("element-size", w_here)
                     if n > umax(w):
-                        raise EncodeFault("size-overflow", w_here)
+                        self._fault("size-overflow", w_here)
                     bits.append((n, w, "elementsize", fl["field_id"]))
                 if cur_bits() % 8 == 0:
                     flush()
@@ -549,8 +569,9 @@ class Model:
                 if pad is not None:
                     n = len(out.data) - start
                     if n > pad:
-                        raise EncodeFault("size-overflow", w_here + " padding")
-                    out.data += bytes(pad - n)
+                        self._fault("size-overflow", w_here + " padding")
+                    else:
+                        out.data += bytes(pad - n)
             elif k in ("payload_field", "body_field"):
                 if payload is not None:
                     out.extend(payload)
@@ -720,6 +741,8 @@ class Model:
                 tk = self.kind(fl["type_id"])
                 if tk == "checksum_declaration":
                     raise Abstain("checksum")
+                if tk == "custom_field_declaration" and self.dm[fl["type_id"]].get("width") is not None:
+                    need(self.dm[fl["type_id"]]["width"] // 8, w_here)
                 x, n = self._decode(fl["type_id"], data[pos:], st, depth + 1)
                 vals[i] = x
                 pos += n
@@ -895,128 +918,97 @@ class Model:
             out.extend(self.descendants(c["id"]))
         return out
 
-    def specialize(self, pid, pv):
-        """Admissible outcomes of specialize() on parent value pv.
-        -> set of ('child', id) | ('none',) | ('err',), plus a dict id -> expected child value
-        for the ('child', id) outcomes."""
+    def specialize_cases(self, pid):
+        """child id -> list of (constraints {field id: int} on pid's data fields, static byte
+        size of the selected declaration's own fields + payload, or None)."""
         p = self.dm[pid]
-        children = A.children_of(self.file, pid)
-        pcons = {i: self.constraint_int(p, c) for i, c in self.all_constraints(p).items()}
+        pfields = {fl["id"] for fl, _ in self.data_fields(p)}
+        out = {}
 
-        def pval(fid):
-            if fid in pcons:
-                return pcons[fid]
-            return pv.get(fid)
-
-        def local_match(x):
-            for c in x.get("constraints", ()):
-                if pval(c["id"]) != self.constraint_int(x, c):
-                    return False
-            return True
-
-        def subtree_match(x, must=True):
-            """x's constraints hold, or some descendant's constraints (all the way down) hold."""
-            if not local_match_on_parent_fields(x):
-                return False
-            return True
-
-        def local_match_on_parent_fields(x):
-            # only constraints on fields visible in p (p's data fields / constants)
-            for c in x.get("constraints", ()):
-                if c["id"] in pcons or c["id"] in pv:
-                    if pval(c["id"]) != self.constraint_int(x, c):
-                        return False
-            return True
-
-        def has_constraints_in_subtree(x):
-            if any((c["id"] in pv or c["id"] in pcons) for c in x.get("constraints", ())):
-                return True
-            return any(has_constraints_in_subtree(y) for y in A.children_of(self.file, x["id"]))
-
-        def matches(x):
-            """constraints of x hold and x itself, or a descendant chain, is consistent"""
-            return local_match_on_parent_fields(x)
-
-        payload = bytes(pv.get("payload", []))
-        size_discr = self._size_discriminated(p)
-        outcomes = set()
-        expected = {}
-        matched_any = False
-        for c in children:
-            if not local_match_on_parent_fields(c):
-                continue
-            constrained = has_constraints_in_subtree(c)
-            # does the payload parse as c?
-            try:
-                cv = self.child_from_parent(c["id"], pid, pv)
-                ok = True
-            except DecodeFault:
-                ok = False
-                cv = None
-            if constrained and any((k["id"] in pv or k["id"] in pcons) for k in c.get("constraints", ())):
-                matched_any = True
-                if ok:
-                    outcomes.add(("child", c["id"]))
-                    expected[c["id"]] = cv
-                else:
-                    outcomes.add(("err",))
-                    if size_discr:
-                        outcomes.add(("none",))
-            else:
-                # c itself carries no constraint on p's fields: selection happens through its
-                # descendants' constraints or constant size, or not at all.
-                desc_match = self._descendant_constraints_match(c, pval, pv, pcons)
-                if desc_match:
-                    matched_any = True
-                    if ok:
-                        outcomes.add(("child", c["id"]))
-                        expected[c["id"]] = cv
-                    else:
-                        outcomes.add(("err",))
-                        if size_discr:
-                            outcomes.add(("none",))
-                else:
-                    # no constraint anywhere to match: admissible either way
-                    if ok and not constrained:
-                        outcomes.add(("child", c["id"]))
-                        expected[c["id"]] = cv
-                    outcomes.add(("none",))
-                    if not ok and size_discr is False and not constrained:
-                        outcomes.add(("err",))
-        if not outcomes:
-            outcomes.add(("none",))
-        if size_discr:
-            outcomes.add(("none",))
-        return outcomes, expected
-
-    def _descendant_constraints_match(self, c, pval, pv, pcons):
-        for y in A.children_of(self.file, c["id"]):
-            cs = [k for k in y.get("constraints", ()) if (k["id"] in pv or k["id"] in pcons)]
-            ok = all(pval(k["id"]) == self.constraint_int(y, k) for k in cs)
-            if ok and (cs or self._descendant_constraints_match(y, pval, pv, pcons)):
-                return True
-        return False
-
-    def _size_discriminated(self, p):
-        """True when some pair of (descendant) cases under p share the same constraint tuple,
-        so the generated match must key on the payload length."""
-        cases = []
+        def own_size(x):
+            tot = 0
+            for i in range(len(x["fields"])):
+                sb = self.static_bits_field(x, i)
+                if sb is None:
+                    return None
+                tot += sb
+            return tot // 8 if tot % 8 == 0 else None
 
         def gather(x, top, cons):
             cons = dict(cons)
             for c in x.get("constraints", ()):
-                cons[c["id"]] = self.constraint_int(x, c)
+                if c["id"] in pfields:
+                    cons[c["id"]] = self.constraint_int(x, c)
             for y in A.children_of(self.file, x["id"]):
                 gather(y, top, cons)
-            cases.append((top, tuple(sorted(cons.items()))))
-        for c in A.children_of(self.file, p["id"]):
+            out.setdefault(top, []).append((cons, own_size(x)))
+        for c in A.children_of(self.file, pid):
             gather(c, c["id"], {})
-        seen = {}
-        for top, key in cases:
-            if key in seen and seen[key] != top:
-                return True
-            seen.setdefault(key, top)
-        return False
+        return out
+
+    def specialize(self, pid, pv):
+        """Admissible outcomes of specialize() on parent value pv.
+        -> (set of ('child', id) | ('none',) | ('err',), {id: expected child value}, widened?)
+        The set has more than one member only where the property text leaves the outcome open
+        (see DESIGN E2.1): an unconstrained child, overlapping constraint tuples, or a
+        constraint match whose constant size differs from the payload length."""
+        cases = self.specialize_cases(pid)
+        keys = {}
+        with_size = False
+        for cid, lst in cases.items():
+            for cons, size in lst:
+                k = tuple(sorted(cons.items()))
+                if k in keys and keys[k] != cid:
+                    with_size = True
+                keys.setdefault(k, cid)
+        plen = len(pv.get("payload", []))
+        outcomes = set()
+        expected = {}
+        widened = False
+
+        def holds(cons):
+            return all(pv.get(i) == v for i, v in cons.items())
+
+        def try_child(cid):
+            try:
+                cv = self.child_from_parent(cid, pid, pv)
+                outcomes.add(("child", cid))
+                expected[cid] = cv
+            except DecodeFault:
+                outcomes.add(("err",))
+
+        matched = []
+        open_children = []
+        for cid, lst in cases.items():
+            hit = False
+            for cons, size in lst:
+                if not holds(cons):
+                    continue
+                sized = with_size and size is not None
+                if not cons and not sized:
+                    if cid not in open_children:
+                        open_children.append(cid)
+                    continue
+                if sized and size != plen:
+                    # constraints match, the constant size does not: the property reads as
+                    # "error", the documented match-on-length as "None"
+                    outcomes.add(("none",))
+                    outcomes.add(("err",))
+                    widened = True
+                    continue
+                hit = True
+            if hit:
+                matched.append(cid)
+        for cid in matched:
+            try_child(cid)
+        if len(matched) > 1:
+            widened = True
+        if not matched:
+            outcomes.add(("none",))
+            for cid in open_children:
+                widened = True
+                try_child(cid)
+        return outcomes, expected, widened
 
     def child_from_parent(self, cid, pid, pv):
         """Child::try_from(parent value): -> child value or DecodeFault."""
